@@ -157,11 +157,12 @@ def call(H, op, g, rng=None):
                     arg = [N(it["id"]) for it in op["items"]]
                 else:
                     arg = [(N(it["id"]), A(it["a"], "n")) for it in op["items"]]
-                H.add_nodes_from(arg, **A(op["a"], "n"))
+                H.add_nodes_from(hg.present_ids(arg, rng) if op["fmt"] == 1 else (arg if rng.random() < 0.6 else iter(arg)),
+                                 **A(op["a"], "n"))
             elif name == "remove_node":
                 H.remove_node(N(op["n"]), strong=op["b1"], remove_empty=op["b2"])
             elif name == "remove_nodes_from":
-                H.remove_nodes_from([N(x) for x in op["ns"]], strong=op["b1"], remove_empty=op["b2"])
+                H.remove_nodes_from(hg.present_ids([N(x) for x in op["ns"]], rng), strong=op["b1"], remove_empty=op["b2"])
             elif name in ("set_node_attributes", "set_edge_attributes"):
                 tbl = "n" if name == "set_node_attributes" else "e"
                 L = N if tbl == "n" else E
@@ -185,7 +186,7 @@ def call(H, op, g, rng=None):
             elif name == "remove_edge":
                 H.remove_edge(E(op["e"]))
             elif name == "remove_edges_from":
-                H.remove_edges_from([E(x) for x in op["ns"]])
+                H.remove_edges_from(hg.present_ids([E(x) for x in op["ns"]], rng))
             elif name == "add_node_to_edge":
                 H.add_node_to_edge(E(op["e"]), N(op["n"]), op["s1"])
             elif name == "remove_node_from_edge":
@@ -220,7 +221,7 @@ def call(H, op, g, rng=None):
 # random ops
 # ---------------------------------------------------------------------------
 def rand_op(rng, j, nn=6):
-    from .drive_hg import rand_attr, rand_id, rand_members
+    from .drive_hg import rand_attr, rand_id, rand_item_attr, rand_members
 
     nodes, edges = j["nodes"], j["edges"]
     names = [
@@ -256,7 +257,7 @@ def rand_op(rng, j, nn=6):
         its = []
         for _ in range(rng.choice([0, 1, 2, 2, 3, 4])):
             it = item(m=rand_members(rng, nn, allow_none=rng.random() < 0.3), id=rid() if fmt in (2, 4, 5) else -1,
-                      a=rand_attr(rng) if fmt in (3, 4) else [])
+                      a=rand_item_attr(rng) if fmt in (3, 4) else [])
             it["h"] = rand_members(rng, nn, allow_none=rng.random() < 0.2)
             if fmt == 5 and rng.random() < 0.4:  # equal sides / equal tails across items: candidates for shared objects
                 it["h"] = list(it["m"]) if rng.random() < 0.5 or not its else list(its[-1]["m"])
